@@ -46,6 +46,9 @@ ASSUMPTIONS = [
     "and 1e-2 for the Poisson loss (floor 5.3e-5: its gradient factor 1 - target/pred cancels near the solution); a wrong batch fraction gives >= 0.5, one lost pattern >= 1/n >= 2.7e-2",
     "the invariance comparison is never made at the exact solution (object and probe both true), where the gradient is pure rounding noise",
     "determinism is judged bitwise with single-threaded torch on CPU, integer seeds passed to every model",
+    "same-seed twins may differ by public calls between two reconstruct() calls that do not belong to the optimisation - save (zip/dir, with/without raw data), a save that "
+    "raises FileExistsError, to('cpu'), the device setter, reading the public state, reconstruct(device='cpu') - all measured schedule-neutral on the unchanged tree (numpy "
+    "generator state and histories unchanged); clone()/from_ptychography() are excluded because clone's save/reload fallback draws its temp-file name from the object's generator",
     "soft-constraint weights are zero where the reported loss is compared with the mean of the per-batch data losses",
 ]
 BUDGET = {"quick": {"soft_s": 100, "workers": 14}, "thorough": {"soft_s": 540, "workers": 14}}
@@ -54,7 +57,7 @@ MIN_EVALUATIONS = {"quick": 60, "thorough": 300}
 # observability: when one of them cannot be attached the sub-monitor is skipped and listed under hooks_missing (DESIGN section 1, robustness)
 REQUIRED_COUNTERS = [
     "eval:epoch_not_permutation_of_train", "eval:len_differs_from_yielded", "eval:train_val_overlap", "eval:train_val_not_cover", "eval:val_iter_mismatch",
-    "eval:reported_loss_batch_dependent", "eval:same_seed_history_differs", "eval:reset_history_differs", "eval:ranges_not_contiguous_cover",
+    "eval:reported_loss_batch_dependent", "eval:same_seed_history_differs", "eval:reset_history_differs", "eval:neutral_call_changes_history", "eval:ranges_not_contiguous_cover",
 ]
 EXHAUSTIVE = {"quick": False, "thorough": False}
 
@@ -781,6 +784,45 @@ def _run_invariance(spec, idx, ctx):
 # ------------------------------------------------------------------------------------------------
 # (d) determinism
 
+NEUTRAL_CALLS = ["save_zip", "save_dir", "save_zip_without_raw_data", "save_dir_without_raw_data", "save_that_raises", "to_cpu", "device_setter", "read_public_state", "reconstruct_device_argument"]
+
+
+def _neutral_calls(ctx, pt, names, idx, kw2):
+    """public calls that do not belong to the optimisation (measured neutral on the unchanged tree: numpy generator state and histories unchanged)"""
+    import os
+    import shutil
+
+    pz, pd = os.path.join(ctx.tmp, "c09_%d.zip" % idx), os.path.join(ctx.tmp, "c09_%d_dir" % idx)
+    with contextlib.redirect_stdout(io.StringIO()):
+        for nm in names:
+            if nm == "save_zip":
+                pt.save(pz, mode="o", store="zip", save_raw_data=True, verbose=0)
+            elif nm == "save_dir":
+                pt.save(pd, mode="o", store="dir", save_raw_data=True, verbose=0)
+            elif nm == "save_zip_without_raw_data":
+                pt.save(pz, mode="o", store="zip", save_raw_data=False, verbose=0)
+            elif nm == "save_dir_without_raw_data":
+                pt.save(pd, mode="o", store="dir", save_raw_data=False, verbose=0)
+            elif nm == "save_that_raises":
+                with open(pz, "ab") as fh:
+                    fh.write(b"")
+                try:
+                    pt.save(pz, store="zip", save_raw_data=bool(idx % 2), verbose=0)  # default mode "w": the target exists
+                except FileExistsError:
+                    ctx.count("neutral_call:failed_saves_caught")
+            elif nm == "to_cpu":
+                pt.to("cpu")
+            elif nm == "device_setter":
+                pt.device = "cpu"
+            elif nm == "read_public_state":
+                _ = (pt.obj, pt.probe, pt.obj_cropped, pt.iter_losses, pt.val_iter_losses, pt.iter_lrs, pt.constraints, pt.snapshots, pt.num_iters, pt.optimizer_params, pt.scheduler_params, pt.batch_size, len(pt.optimizers))
+            elif nm == "reconstruct_device_argument":
+                kw2["device"] = "cpu"
+    with contextlib.suppress(Exception):
+        os.remove(pz)
+    shutil.rmtree(pd, ignore_errors=True)
+    return kw2
+
 
 def _run_determinism(spec, idx, ctx):
     scenes = ctx.state["scenes"]
@@ -835,6 +877,31 @@ def _run_determinism(spec, idx, ctx):
         ctx.check(s1["train"] == s3["train"] and s1["val"] == s3["val"], "reset_split_differs", "train/val split after reset differs from the first run", **f)
         same_order = all(np.array_equal(a[1], c[1]) for e1, e3 in zip(s1["epochs"], s3["epochs"]) for a, c in zip(e1["train_fwd"], e3["train_fwd"]))
         ctx.check(same_order, "reset_schedule_differs", "mini-batch order after reset differs from the first run", **f)
+    # ---- same seed, same reconstruct() calls, but schedule-neutral public calls in between (a checkpoint written with save(), a save that raises, a no-op
+    #      device move, the device setter, reading the public state, reconstruct(device=...)): schedule and loss history must not notice.
+    #      clone() / from_ptychography() are NOT used: on the unchanged tree the save/reload fallback of clone() names its temp file with self.rng.integers
+    k1, k2 = int(rng.integers(1, 3)), int(rng.integers(2, 4))
+    names = [NEUTRAL_CALLS[i] for i in sorted(set(int(x) for x in rng.integers(0, len(NEUTRAL_CALLS), size=int(rng.integers(1, 4)))))]
+    pa, pb = build(seed), build(seed)
+    kw1 = dict(kw(), num_iters=k1)
+    kw2 = dict(num_iters=k2, batch_size=b, loss_type=lt)
+    _judge_run(ctx, pa, _recon(ctx, pa, **kw1), J, k1, f)
+    _judge_run(ctx, pb, _recon(ctx, pb, **dict(kw(), num_iters=k1)), J, k1, f)
+    kw2b = _neutral_calls(ctx, pb, names, idx, dict(kw2))
+    sa = _judge_run(ctx, pa, _recon(ctx, pa, **kw2), J, k2, f)
+    sb = _judge_run(ctx, pb, _recon(ctx, pb, **kw2b), J, k2, f)
+    ha, va = np.array(pa.iter_losses), np.array(pa.val_iter_losses)
+    hb, vb = np.array(pb.iter_losses), np.array(pb.val_iter_losses)
+    fn = dict(f, calls="+".join(names))
+    ctx.check(eq(ha, hb) and eq(va, vb), "neutral_call_changes_history",
+              lambda: "seed %d, reconstruct(%d) ; [%s] ; reconstruct(%d): iter_losses %r, without the calls in between %r (max diff %.3e)" % (seed, k1, ", ".join(names), k2, hb.tolist(), ha.tolist(), dmax(ha, hb)), **fn)
+    if sa is not None and sb is not None:
+        same_split = sa["train"] == sb["train"] and sa["val"] == sb["val"]
+        same_order = len(sa["epochs"]) == len(sb["epochs"]) and all(len(ea["train_fwd"]) == len(eb["train_fwd"]) and all(np.array_equal(x[1], y[1]) for x, y in zip(ea["train_fwd"], eb["train_fwd"])) for ea, eb in zip(sa["epochs"], sb["epochs"]))
+        ctx.check(same_split and same_order, "neutral_call_changes_schedule", lambda: "seed %d: [%s] between two reconstruct() calls changed the %s of the second call" % (seed, ", ".join(names), "train/val split" if not same_split else "mini-batch order"), **fn)
+    ctx.count("neutral_call_twins")
+    for nm in names:
+        ctx.count("neutral_call:" + nm)
     # non-vacuity: another seed changes the schedule (and normally the history)
     p4 = build(seed + 1)
     _judge_run(ctx, p4, _recon(ctx, p4, **kw()), J, iters, f)
